@@ -106,6 +106,16 @@ Check C12_daily_inverted_noon_as_published : forall d r x dl,
   parse_obs {| o_date := Some d; o_noon := JGood r; o_daily := dl |} = Ok (Some (d, r)).
 Print Assumptions C12_daily_inverted_noon_as_published.
 
+(* the hypothesis of C12_rule about the remote, discharged for what the Bank
+   of Canada serves: a list of observations each carrying the noon or the
+   daily series parses to the list of their rates (daily ones inverted) *)
+Theorem C12_observations_parse : forall l : list raw_obs,
+  parse_all (map obs_of_raw l) = rates_of_raw l.
+Proof. exact RatesProps.parse_all_raw. Qed.
+Check C12_observations_parse : forall l : list raw_obs,
+  parse_all (map obs_of_raw l) = rates_of_raw l.
+Print Assumptions C12_observations_parse.
+
 (* Decision rules, for every row of every accepted file (application path:
    load_tx_rates then Tx::try_from): a USD amount without an explicit rate is
    converted with the rule's rate of the row's TRADE date (transaction and
